@@ -406,6 +406,23 @@ theorem union_intersect_regular {B : List Version} (hB : RegB B) (rs : List RC) 
   rw [VC.allows_of_reg hB res h2 h3 p, h4 p hp hreg]
   rfl
 
+/-- **`a.intersect(b)` for any two constraints, in the regular setting**: defined, closed (the result is a
+well-formed constraint over regular members), exact on regular probes with the real `allows`; in particular
+commutative up to admitted versions. -/
+theorem intersect_regular {B : List Version} (hB : RegB B) (a b : VC) (ha : a.WF) (hb : b.WF)
+    (hma : ∀ c ∈ a.flatten, RegMember B c) (hmb : ∀ c ∈ b.flatten, RegMember B c) :
+    ∃ res res', VC.intersect a b = .ok res ∧ VC.intersect b a = .ok res' ∧ res.WF ∧
+      (∀ c ∈ res.flatten, RegMember B c) ∧
+      ∀ p, p.wf = true → Regular (boundsOf a.flatten ++ boundsOf b.flatten) p →
+        ∃ x y, a.allows p = .ok x ∧ b.allows p = .ok y ∧ res.allows p = .ok (x && y) ∧ res'.allows p = .ok (x && y) := by
+  obtain ⟨res, h1, h2, h3, h4⟩ := VC.intersect_reg hB a b ha hb hma hmb
+  obtain ⟨res', g1, g2, g3, g4⟩ := VC.intersect_reg hB b a hb ha hmb hma
+  refine ⟨res, res', h1, g1, h2, h3, fun p hp hreg => ⟨_, _, VC.allows_of_reg hB a ha hma p,
+    VC.allows_of_reg hB b hb hmb p, ?_, ?_⟩⟩
+  · rw [VC.allows_of_reg hB res h2 h3 p, h4 p hp hreg]
+  · rw [VC.allows_of_reg hB res' g2 g3 p,
+      g4 p hp (hreg.mono (by intro e he; simp only [List.mem_append] at he ⊢; exact he.symm)), Bool.and_comm]
+
 /-! ## union level: `VersionRange.difference(VersionUnion)`, `_inverted`, and `VersionUnion.allows` itself -/
 
 /-- **a member-level difference has the shape the union-level loops rely on**: its members are well-formed and
